@@ -44,8 +44,14 @@ MapN(seq, F(_), n) ==      \* FlatMap for an F that always yields n elements
 Named(ms) == [k \in 1..Len(ms) |-> <<<<"a", "b", "c", "d">>[k], ms[k]>>]
 StructsOf(lists) == [k \in 1..Len(lists) |-> AnonStruct(Named(lists[k]))]
 EnumOf(u, ms) == Enum(u, [k \in 1..Len(ms) |-> Variant(u, 100 * u + k, <<"A", "B", "C", "D">>[k], ms[k], k - 1)])
+(* payloads whose size is not a multiple of their alignment (size # stride) matter: a variant has
+   its payload's SIZE, and the tag sits right after the largest payload's size *)
+P_I64U8 == AnonStruct(Named(<<I64, U8>>))      \* size 9, stride 16
+P_I32U8 == AnonStruct(Named(<<I32, U8>>))      \* size 5, stride 8
 EnumLists == <<<<Void>>, <<Void, Void>>, <<U8>>, <<I64>>, <<Void, U8>>, <<U8, I64>>, <<I32, Str>>,
-               <<Void, I32, F64>>, <<Str, Void, U8>>, <<I64, I64, Void, U8>>>>
+               <<Void, I32, F64>>, <<Str, Void, U8>>, <<I64, I64, Void, U8>>,
+               <<P_I64U8, Arr(12, U8)>>, <<Opt(I32), U8>>, <<P_I32U8, Void>>, <<EU(U8, I64), I32>>,
+               <<Arr(3, P_I32U8)>>>>
 Enums == [k \in 1..Len(EnumLists) |-> EnumOf(50 + k, EnumLists[k])]
 Variants == FlatMap(Enums, LAMBDA e : e.vs)
 
@@ -69,10 +75,11 @@ D2Base == <<Arr(3, U8), Arr(3, I16), Arr(1, I64), Slice(U8), Ptr(FALSE, I32), Op
             Opt(Ptr(FALSE, I32)), Opt(Str), EU(U8, I64), EU(Str, Void), Distinct(901, U16),
             S_A, S_B, S_C, S_D, Enums[5], Enums[6], Enums[10], Variants[3], Variants[10]>>
 D2Members == <<U8, I64, Arr(3, U8), Opt(U8), Opt(I64), S_A, S_B, Enums[6], EU(U8, I64), Slice(U8)>>
+D2Enums == <<EnumOf(70, <<S_A, Opt(I64), Void>>), EnumOf(71, <<Arr(3, U8), Str>>),
+             EnumOf(72, <<Enums[6], U8>>), EnumOf(73, <<Enums[11], Opt(Enums[12])>>)>>
 LD2 == Wrap(D2Base) \o EUs(D2Base)
         \o StructsOf(ListsOfLen(D2Members, 1) \o ListsOfLen(D2Members, 2) \o ListsOfLen(D2Members, 3))
-        \o <<EnumOf(70, <<S_A, Opt(I64), Void>>), EnumOf(71, <<Arr(3, U8), Str>>),
-             EnumOf(72, <<Enums[6], U8>>)>>
+        \o D2Enums \o FlatMap(D2Enums, LAMBDA e : e.vs)
 
 LU == IF Level = "1" THEN Base \o LD1 ELSE Base \o LD1 \o LD2
 
